@@ -141,6 +141,18 @@ def _read_fit_raw_plain(path):
     return m, recs, offs
 
 
+def write_fit_raw(path, infos):
+    """Harness writer of a fit file in the plain layout (directory, filter list, law, one pickle per record), for inputs
+    that must not depend on the writer under test."""
+    with env.real_open(path, 'wb') as f:
+        m = infos[0].meta
+        pickle.dump(m.model_dir, f, 2)
+        pickle.dump(m.filters, f, 2)
+        pickle.dump(m.extinction_law, f, 2)
+        for i in infos:
+            pickle.dump(i, f, 2)
+
+
 def read_fit_sed(path):
     """sedfitter's own reader, as a consumer would use it."""
     f = FitInfoFile(path, 'r')
@@ -261,7 +273,7 @@ def run_consumer(sim, op, arg, sel, tag, extra=None):
     return ('ok', res)
 
 
-def fitted_world(sim, sc, out, sel=('A', 0), output_convolved=False, n_data_min=0):
+def fitted_world(sim, sc, out, sel=('A', 0), output_convolved=False, n_data_min=0, raw_fallback=False):
     """World -> package on disk -> convolve -> fit() of sc['sources'] into a file. Setup only: any failure here
     discards the scenario (these stages are the subject of other properties). Returns (W, dir, path, records)."""
     import random
@@ -285,6 +297,15 @@ def fitted_world(sim, sc, out, sel=('A', 0), output_convolved=False, n_data_min=
         out.discarded = 'setup-fit:' + exc_name(r)
         return None
     r = call(read_fit_raw, outp)
+    if (r[0] != 'ok' or not r[1][1]) and raw_fallback:
+        # fit() left no usable file: build the input through the object interface and the harness's own writer instead,
+        # so that the property under test (which only consumes such a file) can still be exercised
+        tw = call(twin_records, W, d, dict(sc, n_data_min=n_data_min, output_convolved=output_convolved, sel=list(sel)),
+                  [source_line(s) for s in sc['sources']], specs=sc['sources'])
+        if tw[0] == 'ok' and tw[1]:
+            write_fit_raw(outp, tw[1])
+            out.probe('input_file_written_by_the_harness')
+            r = call(read_fit_raw, outp)
     if r[0] != 'ok' or not r[1][1]:
         out.discarded = 'setup-read:' + (exc_name(r) or 'empty')
         return None
